@@ -19,10 +19,10 @@ type varQuery struct {
 
 // MsaCase is the rendered alignment (self-contained: the oracle works on the rows).
 type MsaCase struct {
-	RefID   string  `json:"ref_id"`   // ID of the reference record ("" = take the reference from the annotation)
-	Rows    []FaRec `json:"rows"`     // all records, reference included (unless RefID == "")
-	RefAt   int     `json:"ref_at"`   // index of the reference record in Rows (-1 if absent)
-	Layout  Layout  `json:"layout"`
+	RefID  string  `json:"ref_id"` // ID of the reference record ("" = take the reference from the annotation)
+	Rows   []FaRec `json:"rows"`   // all records, reference included (unless RefID == "")
+	RefAt  int     `json:"ref_at"` // index of the reference record in Rows (-1 if absent)
+	Layout Layout  `json:"layout"`
 }
 
 func (m MsaCase) refRow(a Anno) string {
